@@ -85,6 +85,20 @@ CLAIMS = {
          "(exact size for fixed-size types), no fixed-width decoding reads past its slice, the OpenVPN header byte round-trips for all 256 values, declared size constants equal encoded struct sizes. Winbox (value-dependent chunking) and "
          "serialise-then-parse of arbitrary field values are not decided.",
          "DESIGN.md section 4 C18"),
+ "C07": ("AST extraction of cryptobyte read sequences from the repo's parser and from the toolchain's crypto/tls source (oracle parsed on every run); SSA dominance/provenance rules for the record gate, length and placeholders",
+         "Decided: the hello is read only behind the record-type-22 gate with exactly the announced length; the fixed part and all 18 extension cases shared with crypto/tls perform the same ordered reads with the same case constants; "
+         "each extension feeding ClientHelloInfo fills the field crypto/tls fills; placeholders and handshake sub-matchers use the parsed hello; both reads propagate need-more and the matcher does not consult the amount of buffered data. "
+         "Value-level agreement over all hellos (the differential statement) is not decided.",
+         "DESIGN.md section 4 C07"),
+ "C14": ("field-access census over the matcher call graph, constant table comparison against an independent specification table, provenance lint for netip addresses, path evaluation of the DNS decision",
+         "Decided: every configured filter field of the 20 matchers is consulted; pre-parsed filters are assigned during provisioning; 41 wire constants/byte strings/byte gates equal the specification table; addresses tested against CIDR "
+         "filters are in canonical form; the DNS allow/deny/default_deny/prefer_allow decision equals the documented table for every rule-hit combination. The matchers' verdict functions over all messages are not decided.",
+         "DESIGN.md section 4 C14"),
+ "C15": ("AST extraction of documented grammar vs. accepted option labels, struct tag census, codec field agreement, map-range determinism lint, registration census, nil-guard dominance rule for option handlers",
+         "Decided: for 21 Caddyfile unmarshallers the documented option keywords equal the accepted labels; custom JSON codecs use one field in both directions; 30+ configuration structs are tagged name,omitempty; no slice is built in "
+         "map iteration order; every module type is registered and imported; option handlers never replace a configuration sub-object another option may have filled; merged global blocks get fresh server keys. Semantic equality of the adapted JSON "
+         "for all generated Caddyfiles is not decided.",
+         "DESIGN.md section 4 C15"),
 }
 
 checks = []
